@@ -531,6 +531,10 @@ CORPUS = [
     ("hierarchy", {"spec": {"E": [0.0, 1.0, 0.5, 0.25], "coords": [[0, 0], [1, 0], [2, 0], [3, 0]],
                             "ts": [[0, 1, 2.0, [0.5, 0]], [1, 2, 3.0, [1.5, 0]], [3, 3, 1.0, [3, 1]]]},
                    "start": 3.0, "finish": 0.0, "levels": 3}),
+    # fewer than two minima: zero, also when the lone minimum carries a self-connection
+    ("roughness", {"spec": {"E": [0.5], "coords": [[0, 0]], "ts": [[0, 0, 2.0, [0.5, 0.5]]]},
+                   "perm": [0], "shift": 3.5, "lam": 2.5, "order": [0]}),
+    ("roughness", {"spec": {"E": [0.5], "coords": [[0, 0]], "ts": []}, "perm": [0], "shift": 1.0, "lam": 2.0, "order": []}),
     ("roughness", {"spec": {"E": [0.0, 1.0, 0.5], "coords": [[0, 0], [1, 0], [2, 0]],
                             "ts": [[0, 1, 2.0, [0.5, 0]], [1, 2, 0.75, [1.5, 0]], [2, 2, 3.0, [2, 1]]]},
                    "perm": [2, 0, 1], "shift": 3.5, "lam": 2.5, "order": [2, 0, 1]}),
